@@ -893,6 +893,23 @@ class Walker:
         n.versions = collections.Counter(ev.versions)
         return n
 
+    @staticmethod
+    def _functional_update(ev, lhs, val):
+        """`local.field = v` where the local currently holds a known aggregate: update the aggregate in place"""
+        if len(lhs["p"]) != 1 or lhs["p"][0]["k"] != "field":
+            return False
+        cur = ev.env.get(lhs["l"]) if ev.env is not None else None
+        if not (isinstance(cur, tuple) and len(cur) > 4 and cur[0] == "agg"):
+            return False
+        name = lhs["p"][0].get("name")
+        if not name or name not in cur[4]:
+            return False
+        i = cur[4].index(name)
+        ops = list(cur[3])
+        ops[i] = val
+        ev.env[lhs["l"]] = T("agg", cur[1], cur[2], tuple(ops), cur[4])
+        return True
+
     def _invalidate(self, ev, known, root):
         """a write through `root` happened: forget decided atoms and stored fields that mention it"""
         if root is None:
@@ -961,6 +978,9 @@ class Walker:
                         if body.dbg.get(l) and len(body.defs.get(l, ())) > 1:
                             events.append(Ev("set", n, l, val, body.dbg.get(l), span=st["span"]["line"]))
                     else:
+                        if self._functional_update(ev, lhs, val):
+                            events.append(Ev("store", n, T("field", T("localplace", lhs["l"], body.dbg.get(lhs["l"], "")), lhs["p"][0].get("name") or str(lhs["p"][0].get("i"))), val, span=st["span"]["line"]))
+                            continue
                         saved_mem = ev.mem
                         ev.mem = {}
                         pt = ev.place(lhs)
